@@ -75,12 +75,13 @@ def check_insert(before, after, req, ret, ref, V, tick, site):
         V("order", site, "an existing row temperature was changed or dropped")
         return
     for i in new_idx:
-        if (i > 0 and Ta[i - 1] - Ta[i] <= TOL) or (i + 1 < len(Ta) and Ta[i] - Ta[i + 1] <= TOL):
+        slack = 8 * np.spacing(max(abs(float(Ta[0])), abs(float(Ta[-1]))))
+        if (i > 0 and Ta[i - 1] - Ta[i] <= TOL - slack) or (i + 1 < len(Ta) and Ta[i] - Ta[i + 1] <= TOL - slack):
             V("order", site, f"new row T={Ta[i]!r} within tolerance of a neighbour")
             break
     tick("covered")
     for t in req:
-        if np.min(np.abs(Ta - t)) > TOL * (1 + 1e-9) + 1e-12:
+        if np.min(np.abs(Ta - t)) > TOL * (1 + 1e-9) + 1e-12 + 8 * np.spacing(max(abs(float(Ta[0])), abs(float(Ta[-1])), abs(t))):
             V("covered", site, f"requested T={t!r} is not within tolerance of any row")
             break
     # curves: equal to the piecewise-linear reference at every row
@@ -207,6 +208,9 @@ class C08(World):
         nice = swarm["nice"]
         steps = []
         big = self.tier == "thorough" and sw.random() < 0.25
+        bulk = sw.random() < 0.03  # a long table and requests of dozens of values in one call
+        if bulk:
+            swarm.update(source="synthetic", n_req=sw.choice([2, 3]), bulk=True)
         if big:
             swarm["n_req"] = sw.choice([12, 20, 30])
         if swarm["source"] in ("builder", "cascade"):
@@ -221,10 +225,12 @@ class C08(World):
                 streams.append(dict(name=f"S{k}", t_supply=float(ts), t_target=float(tt), heat_flow=float(args.choice([50, 100, 400, 1000])) if nice else round(args.uniform(1, 3000), 2), dt_cont=float(args.choice([0, 5, 10])), htc=1.0))
             steps.append(dict(op="build", source=swarm["source"], streams=streams, shifted=swarm["shifted"]))
         else:
-            n = args.choice([2, 3, 4, 6, 10])
+            n = args.choice([2, 3, 4, 6, 10]) if not bulk else args.choice([64, 90, 130])
             T = [float(args.choice([400, 300, 250.5]))]
+            if args.random() < 0.08:
+                T = [float(args.choice([1.0e6, -150.0, 5.0e4]))]  # far from the usual range
             for _ in range(n - 1):
-                T.append(round(T[-1] - args.choice([0.01, 1, 5, 25, 50, round(args.uniform(0.001, 60), 4)]), 6))
+                T.append(round(T[-1] - args.choice([0.01, 1, 5, 25, 50, 2e-5, 1e-4, round(args.uniform(0.001, 60), 4)]), 6))
             k = args.choice([1, 2, 4, 8, len(CURVES)])
             cols = {}
             for name in args.sample(CURVES, k):
@@ -234,7 +240,7 @@ class C08(World):
                 elif mode_c == "mono":
                     acc, vals = 0.0, []
                     for _ in range(n):
-                        acc += args.choice([0, 10, 50, round(args.uniform(0, 500), 3)])
+                        acc += args.choice([0, 10, 50, 1.0e7, round(args.uniform(0, 500), 3)])
                         vals.append(acc)
                     if args.random() < 0.5:
                         vals = vals[::-1]
@@ -281,7 +287,14 @@ class C08(World):
             if r and w["again"] and args.random() < 0.2:
                 steps.append(dict(op="again", which=args.randrange(64)))
                 continue
-            form = args.choice(["scalar", "list", "list", "list", "ndarray", "tuple"])
+            form = args.choice(["scalar", "list", "list", "list", "ndarray", "tuple", "int_array"])
+            if bulk:
+                m_ = args.choice([50, 70, 110])
+                refs = [["mid", args.randrange(256), round(args.random(), 3)] for _ in range(m_ - 8)]
+                refs += [["top", args.choice([0.4e-6, 0.9e-6, 2e-6, 1.0])], ["bot", args.choice([0.4e-6, 0.9e-6, 2e-6, 1.0])], ["row", 0, 0.4], ["row", 0, -0.4], ["row", 255, 0.4], ["row", 255, -0.4], ["top", 0.4e-6], ["bot", 0.4e-6]]
+                args.shuffle(refs)
+                steps.append(dict(op="insert", form=args.choice(["list", "ndarray"]), refs=refs))
+                continue
             if form == "scalar":
                 refs = one_ref()[:1]
             else:
@@ -421,6 +434,9 @@ class C08(World):
                 arg = np.asarray(req, dtype=float)
             elif form == "tuple":
                 arg = tuple(req)
+            elif form == "int_array":
+                req = [float(round(x)) for x in req]  # integral temperatures handed over as an integer-typed array
+                arg = np.asarray([int(x) for x in req], dtype=np.int64)
             try:
                 ret = pt.insert_temperature_interval(arg)
             except Exception as e:
@@ -483,7 +499,7 @@ class C08(World):
         if kind == "bot":
             return float(T[-1] - ref[1])
         if kind == "row":
-            return float(T[ref[1] % n] + ref[2] * TOL)
+            return float(T[(ref[1] % n) if ref[1] != 255 else n - 1] + ref[2] * TOL)
         return float(ref[1])
 
     def _build(self, st):
